@@ -25,6 +25,8 @@ struct Comparer<T, enable_if_t<IsString<T>::value>> : ComparerBase {
   explicit Comparer(T value) : rhs(value) {}
 
   CompareResult visit(JsonString lhs) {
+    if (adaptString(rhs).isNull())
+      return COMPARE_RESULT_DIFFER;
     int i = stringCompare(adaptString(rhs), adaptString(lhs));
     if (i < 0)
       return COMPARE_RESULT_GREATER;
